@@ -546,8 +546,13 @@ def segy_case(label, kind, dims, how_many, clean, blockshape=None, bpv=8, reduce
     else:
         n_il, n_xl = dims
         data = rnd_cube(rng, (n_il, n_xl, ns))
-        ilines = [10 + 3 * i for i in range(n_il)]
-        xlines = [200 + 2 * x for x in range(n_xl)]
+        # line numbering varies with the case: positive, negative throughout, running through zero without containing it
+        # (inline number 0 on an irregular survey is the known finding D20 of C08)
+        i0_, x0_ = [(10, 200), (-40, -9), (-7, 200), (10, -5)][_SHARED[0] % 4]
+        ilines = [i0_ + 3 * i for i in range(n_il)]
+        xlines = [x0_ + 2 * x for x in range(n_xl)]
+        if 0 in ilines:
+            ilines = [v - 1 for v in ilines]
         if kind == 'irregular':
             while True:
                 present = np.array([[rng.random() < 0.8 for _ in range(n_xl)] for _ in range(n_il)])
